@@ -10,38 +10,28 @@ def nontrivial(req, obs):
 
 
 def root_cause(mech):
-    """the defect site a mechanical key belongs to (None = not attributable to a listed site)"""
+    """the open defect site a mechanical key belongs to (None = not attributable to a listed site).
+    Sites repaired in /repo (namespace declarations 306692a, locals vs used globals 6bac604, enum values 926e817,
+    generated names taking user names 0dfd8dd) are no longer attributed: their mechanical keys are violations again."""
     f = mech.split(":")
-    if f[0] == "reserved-namespace-decl":
-        return "namespace-decl-prints-source-name"
-    if f[0] in ("tie", "inconsistent") and f[-1] == "N":
-        return "namespace-decl-prints-source-name"
-    if f[0] == "reserved-unrenamed":
-        return "enum-value-or-member-not-in-namemap"
-    if f[0] == "verbatim" and f[1] == "generated-clash":
-        return "generated-name-takes-a-user-name"
+    if f[0] == "reserved-unrenamed" and f[-1] == "M":
+        return "struct-member-not-in-namemap"
+    if f[0] == "verbatim" and f[1] == "generated-clash" and f[2] == "local":
+        return "local-renamed-next-to-generated-name"
     if f[0] == "dup" and len(f) == 3:
         t, kinds = f[1], set(f[2])
-        if kinds & set("MV"):
-            return "enum-value-or-member-not-in-namemap"
-        if "N" in kinds:
-            return "namespace-decl-prints-source-name"
-        if "L" in kinds:
-            return "locals-not-kept-apart-from-globals"
         if t == "m" and kinds == {"G"}:
             return "msl-threaded-globals-share-leaf-name"
         return None
     if f[0] == "capture" and len(f) == 4:
         t, exp, got = f[1], f[2], f[3]
         kinds = set(got.replace("q", ""))
-        if kinds & set("MV"):
-            return "enum-value-or-member-not-in-namemap"
-        if "L" in kinds or exp == "L":
-            return "locals-not-kept-apart-from-globals"
+        if "M" in kinds or "L" in kinds or exp == "L":
+            return None
         if t == "m" and kinds == {"G"} and exp == "G" and "q" not in got:
             return "msl-threaded-globals-share-leaf-name"
-        # only namespace-level entities are involved: the relative qualified path that is printed resolves
-        # differently at the use site (or through a namespace declared under its source name)
+        # only namespace-level entities (incl. unscoped enumerators) are involved: the relative qualified path that
+        # is printed resolves differently at the use site
         return "relative-path-resolves-elsewhere"
     return None
 
@@ -113,18 +103,20 @@ SPEC = {
     "gens": ["Reserved"],
     "lean_modules": ["RsslVerif.Thm.C15"],  # imports Lemmas.Names, Lemmas.NamesOrder, Lemmas.NamesTables (decide facts, cached)
     "theorems": [T + n for n in [
-        "source_fingerprints", "reserved_complete", "build_scope_order_independent", "never_reserved", "injective_per_scope", "verbatim_partial",
-        "renaming_equivariant_partial", "scope_loop_terminates", "verbatim_unconditional_false",
-        "local_may_capture_global"]],
+        "source_fingerprints", "reserved_complete", "build_scope_order_independent", "never_reserved",
+        "injective_per_scope", "verbatim", "renaming_equivariant_partial", "locals_apart_from_used",
+        "scope_loop_terminates"]],
     "harness": "c15",
     "nontrivial": nontrivial,
     "finding_key": finding_key,
     "shrink": shrink,
-    "level_text": "Proof about an executable model of NameMap::build (per-scope sorted groups, keep-if-unique-and-free, first free "
-                  "name_k, local-variable pass), for every module and reserved list: names are never reserved and never shared "
-                  "inside a namespace-level scope; the reserved tables are re-extracted every run and compared with an independent "
-                  "keyword list by decide. The unconditional claims of the property are false on the pinned code and the negations "
-                  "are proved with concrete witnesses that the corpus replays on the real compiler.",
+    "level_text": "Proof about an executable model of NameMap::build (per-scope sorted groups, names that can be kept are claimed "
+                  "first, first free name_k for the rest, enum values as symbols of the enclosing scope, local-variable pass that "
+                  "avoids the names of used functions/globals), for every module and reserved list: names are never reserved, never "
+                  "shared inside a namespace-level scope, unique unreserved names are kept verbatim, locals never take the name of a "
+                  "used function/global, and the result does not depend on hash iteration order; the reserved tables are re-extracted "
+                  "every run and proved to contain an independent keyword list. What the exporters do with the map (struct members, "
+                  "MSL parameters for globals, relative paths) is covered by the correspondence run only.",
     "rule": "requests = (target, program descriptor); the harness prints RSSL for the descriptor, type-checks it with the real "
             "front end, calls the real NameMap::build and compares the assignment with the model; it compiles the program and its "
             "skeleton (all entities renamed to unique fresh identifiers) with the real compile() for the target and checks, on the "
@@ -143,5 +135,8 @@ SPEC = {
     "assumptions": [
         "registry ids follow declaration order (checked per case: the registries' source names are compared with the descriptor)",
         "String::cmp order = Lean String < on the identifiers used (ASCII)",
+        "the usage analysis is an input of the model (Input.used): the driver derives it as 'every global / function named by a "
+        "use in some function body', which is what GlobalUsageAnalysis yields for the generated programs (literal initialisers, "
+        "no default arguments); usage through global initialisers and default arguments (/repo 2c8592f, 1d760f5) is not generated",
     ],
 }
